@@ -167,6 +167,7 @@ func TestC19(t *testing.T) {
 		recorded := map[string]qAnswer{}
 		changedAt := map[string][]int64{} // path|key -> heights at which the answer differs from the previous height
 		var recKeys []string              // path|keyhex (for drawing)
+		var changedKeys []string          // those of recKeys whose answer changed at least once
 		seenKey := map[string]bool{}
 		var verr error
 		reasks, oldChanged, midBlockChanged := 0, 0, 0
@@ -228,10 +229,24 @@ func TestC19(t *testing.T) {
 			rt := gs.t
 			for i, n := 0, unif(rt, 4, "nReasks"); i < n; i++ {
 				pk := pick(rt, recKeys, "reaskKey")
+				if len(changedKeys) > 0 && pct(rt, 55, "reaskChangedKey") {
+					pk = pick(rt, changedKeys, "reaskChanged")
+				}
 				parts := strings.SplitN(pk, "|", 2)
 				inj := Injected{Pos: pos, Kind: "query", Path: parts[0], Data: unhx(parts[1])}
 				tip := c.Sim.H
-				switch unif(rt, 6, "reaskHeight") {
+				switch unif(rt, 9, "reaskHeight") {
+				case 6, 7, 8:
+					// around a height at which this key's answer changed: the version just before it and the one that changed it
+					if chs := changedAt[pk]; len(chs) > 0 {
+						ch := pick(rt, chs, "reaskAtChange")
+						inj.Height = ch - int64(unif(rt, 2, "reaskBeforeChange"))
+						if inj.Height < 1 {
+							inj.Height = ch
+						}
+					} else if tip >= 1 {
+						inj.Height = 1 + int64(unif(rt, int(tip), "reaskPast2"))
+					}
 				case 0:
 					inj.Height = 0
 				case 1:
@@ -311,6 +326,9 @@ func TestC19(t *testing.T) {
 							recKeys = append(recKeys, pk)
 						}
 						if prev, ok := recorded[qk(path, key, h-1)]; ok && !same(prev, ans) {
+							if len(changedAt[pk]) == 0 {
+								changedKeys = append(changedKeys, pk)
+							}
 							changedAt[pk] = append(changedAt[pk], h)
 						}
 						if msg := checkAgainstModel(c.W, path, key, ans); msg != "" {
